@@ -95,7 +95,9 @@ var variants = []variant{
 	{"headers-connect", func(T uint32) [][]byte {
 		return one(h2peer.RawFrame(1, fEH, T, block([]hpack.HeaderField{hf(":method", "CONNECT"), hf(":authority", "c13.test:443"), xsid(T)})))
 	}},
-	{"headers-stream0", func(T uint32) [][]byte { return one(h2peer.RawFrame(1, fES|fEH, 0, block(reqFields(T, "GET", -1, "")))) }},
+	{"headers-stream0", func(T uint32) [][]byte {
+		return one(h2peer.RawFrame(1, fES|fEH, 0, block(reqFields(T, "GET", -1, ""))))
+	}},
 	{"headers-even-id", func(T uint32) [][]byte { return one(getES(T + 1)) }},
 	{"headers-lower-id", func(T uint32) [][]byte { return one(getES(1)) }},
 	{"headers-pad-too-long", func(T uint32) [][]byte {
@@ -195,7 +197,9 @@ var variants = []variant{
 	{"data-valid", func(T uint32) [][]byte { return one(h2peer.RawFrame(0, 0, T, []byte("abc"))) }},
 	{"data-end-stream", func(T uint32) [][]byte { return one(h2peer.RawFrame(0, fES, T, []byte("abcde"))) }},
 	{"data-empty-end-stream", func(T uint32) [][]byte { return one(h2peer.RawFrame(0, fES, T, nil)) }},
-	{"data-padded", func(T uint32) [][]byte { return one(h2peer.RawFrame(0, fPAD, T, cat([]byte{4}, []byte("ab"), zeros(4)))) }},
+	{"data-padded", func(T uint32) [][]byte {
+		return one(h2peer.RawFrame(0, fPAD, T, cat([]byte{4}, []byte("ab"), zeros(4))))
+	}},
 	{"data-padding-only", func(T uint32) [][]byte { return one(h2peer.RawFrame(0, fPAD, T, cat([]byte{3}, zeros(3)))) }},
 	{"data-stream0", func(T uint32) [][]byte { return one(h2peer.RawFrame(0, 0, 0, []byte("abc"))) }},
 	{"data-pad-too-long", func(T uint32) [][]byte { return one(h2peer.RawFrame(0, fPAD, T, cat([]byte{5}, []byte("abcd")))) }},
@@ -229,7 +233,9 @@ var variants = []variant{
 	{"settings-valid", func(T uint32) [][]byte {
 		return one(h2peer.RawFrame(4, 0, 0, cat(setting(1, 8192), setting(2, 0), setting(3, 50), setting(4, 100000), setting(5, 32768), setting(6, 65536))))
 	}},
-	{"settings-unknown-id", func(T uint32) [][]byte { return one(h2peer.RawFrame(4, 0, 0, cat(setting(0x99, 7), setting(0xf000, 0xffffffff)))) }},
+	{"settings-unknown-id", func(T uint32) [][]byte {
+		return one(h2peer.RawFrame(4, 0, 0, cat(setting(0x99, 7), setting(0xf000, 0xffffffff))))
+	}},
 	{"settings-on-stream", func(T uint32) [][]byte { return one(h2peer.RawFrame(4, 0, T, setting(3, 50))) }},
 	{"settings-len5", func(T uint32) [][]byte { return one(h2peer.RawFrame(4, 0, 0, []byte{0, 3, 0, 0, 0})) }},
 	{"settings-ack-with-payload", func(T uint32) [][]byte { return one(h2peer.RawFrame(4, 1, 0, setting(3, 50))) }},
@@ -265,7 +271,9 @@ var variants = []variant{
 	// ---- unknown / extension frame types
 	{"unknown-type-stream0", func(T uint32) [][]byte { return one(h2peer.RawFrame(0xfa, 0xff, 0, []byte("whatever"))) }},
 	{"unknown-type-on-stream", func(T uint32) [][]byte { return one(h2peer.RawFrame(0x0c, 0x05, T, []byte{1, 2, 3})) }},
-	{"altsvc-on-stream", func(T uint32) [][]byte { return one(h2peer.RawFrame(0x0a, 0, T, cat([]byte{0, 0}, []byte(`h2=":443"`)))) }},
+	{"altsvc-on-stream", func(T uint32) [][]byte {
+		return one(h2peer.RawFrame(0x0a, 0, T, cat([]byte{0, 0}, []byte(`h2=":443"`))))
+	}},
 	{"priority-update-frame", func(T uint32) [][]byte { return one(h2peer.RawFrame(0x10, 0, 0, cat(u32(T), []byte("u=1")))) }},
 	{"unknown-type-oversize", func(T uint32) [][]byte { return one(h2peer.RawFrame(0xfa, 0, T, zeros(16385))) }},
 }
